@@ -3,7 +3,7 @@
 (* backend received (with the fault plan it then executed and the in-flight gauge it saw),   *)
 (* repository statuses polled by the harness.  Unobserved olla-internal steps (how an       *)
 (* attempt ended, a refused connection, a breaker skip, giving up) are silent spec actions. *)
-EXTENDS Dispatch, TraceLib
+EXTENDS Dispatch, TraceLib, FiniteSetsExt
 CONSTANT KnownDeviations
 VARIABLE l
 tvars == <<vars, l>>
@@ -57,6 +57,23 @@ TStats == /\ Is("Stats") /\ \A r \in Reqs : rq[r].phase = "done"
                                  /\ E.ep[e].gauge = 0 /\ gauge[e] = 0
                             ELSE cnt[e].ok = 0 /\ cnt[e].fail = 0
           /\ E.proxy.total = E.proxy.ok + E.proxy.fail
+          \* global scope: a success is only ever booked together with an endpoint's; failures may also be
+          \* booked without one (nothing could be tried), at most one per request
+          /\ E.proxy.ok = FoldSet(LAMBDA e, acc : acc + cnt[e].ok, 0, EP)
+          /\ E.proxy.fail >= FoldSet(LAMBDA e, acc : acc + cnt[e].fail, 0, EP)
+          /\ E.proxy.fail <= FoldSet(LAMBDA e, acc : acc + cnt[e].fail, 0, EP) + Cardinality(Reqs)
+          \* translator scope: every request on a translated route is recorded exactly once; a success iff the
+          \* client received the response in full with a success status
+          /\ "tr" \in DOMAIN E =>
+                /\ E.tr.total = E.tr.ok + E.tr.fail
+                /\ E.tr.total = Cardinality({r \in Reqs : Translated(rq[r].route)})
+                /\ \/ E.tr.ok = Cardinality({r \in Reqs : Translated(rq[r].route) /\ rq[r].last = "full" /\ rq[r].pst < 400})
+                   \* Known finding KF-C19-3 (only if listed): a backend's own 4xx/5xx answer, relayed or translated,
+                   \* is booked as a SUCCESS at translator scope (the repository's tests pin this down)
+                   \/ /\ "KF-C19-3" \in KnownDeviations
+                      /\ \E r \in Reqs : Translated(rq[r].route) /\ rq[r].last = "full" /\ rq[r].pst >= 400
+                      /\ E.tr.ok = Cardinality({r \in Reqs : Translated(rq[r].route) /\ rq[r].last = "full"})
+                      /\ UseDeviation("KF-C19-3")
           /\ UNCHANGED vars /\ l' = l + 1
 
 TSilent == /\ \/ \E r \in Reqs : AttemptEnd(r)
